@@ -51,7 +51,11 @@ def prep_item(item, idx):
     for v in used:
         if v not in vt:
             raise vlib.ToolError("MIR export: variable %s of %s has no type" % (v, item["name"]))
-    return {"name": item["name"], "idx": idx, "kind": item["kind"], "params": item["params"], "vt": vt, "blocks": blocks}
+    # temporaries that receive a discriminant (the only ones a switch can be refined by)
+    dtmps = sorted({ins["to"]["var"] for b in blocks for ins in b["ins"]
+                    if ins["k"] == "assign" and ins["val"]["k"] == "discr" and not ins["to"]["proj"]})
+    return {"name": item["name"], "idx": idx, "kind": item["kind"], "params": item["params"], "vt": vt, "blocks": blocks,
+            "dtmps": dtmps}
 
 
 def check_functions(pid, items, tag, timeout=1800):
